@@ -64,7 +64,8 @@ DoctypeN            == [k |-> "doctype"]
 
 Trailer(nd) == nd.k \in {"text", "expr", "void", "el"}
 \* whitespace written after a node in the source
-WsAfter(nd) == IF Trailer(nd) THEN nd.tr
+WsAfter(nd) == IF nd.k = "text" /\ nd.tr = "" /\ "sp" \in DOMAIN nd /\ nd.sp THEN "h"   \* space kept inside the text value
+               ELSE IF Trailer(nd) THEN nd.tr
                ELSE IF nd.k \in {"slot", "hcomment", "raw"} THEN nd.after
                ELSE "v"                       \* control flow, calls, Go code, Go comments, doctype end their line
 LineStart(k) == k \in {"if", "for", "switch", "call", "callb", "gocode", "gcomment", "doctype"}
@@ -208,6 +209,15 @@ TagTok(n, at, g) == [t |-> "open", n |-> n, g |-> g, attrs |-> at]
 \*   [a |-> "const", n, v]  [a |-> "boolc", n]  [a |-> "boole", n, c]  [a |-> "expr", n, e]
 \*   [a |-> "spread", m]    [a |-> "cond", c, then, else]   (then/else: lists of const/boolc/expr/class attributes)
 \*   [a |-> "class", e]     class={ expr } with a plain string class name (id K1...)
+\*   [a |-> "class2"]       class={ K1, K2 }: two class expressions (not a single string expression)
+\* What a spread map contributes, in key order (RenderAttributes sorts the keys). M1 holds one string value;
+\* M2 holds one entry of every value kind the runtime distinguishes: string, *string, bool, *bool,
+\* KeyValue[string,bool], KeyValue[bool,bool], func() bool -- each in its "present" and "absent" form.
+SpreadPairs(m) ==
+    IF m = "M1" THEN << [n |-> "data-M1", v |-> "M1"] >>
+    ELSE << [n |-> "a-str", v |-> "M1"], [n |-> "b-ptrstr", v |-> "M1"], [n |-> "c-true", v |-> ""],
+            [n |-> "e-ptrtrue", v |-> ""], [n |-> "g-kvs", v |-> "M1"], [n |-> "i-kvb", v |-> ""], [n |-> "m-fn", v |-> ""] >>
+
 RECURSIVE DenAttrs(_, _)
 DenAttrs(at, env) ==
     IF at = <<>> THEN [pairs |-> <<>>, evs |-> <<>>]
@@ -219,7 +229,8 @@ DenAttrs(at, env) ==
                                             evs |-> << a.c >>]
                       [] a.a = "expr"   -> [pairs |-> << [n |-> a.n, v |-> a.e] >>, evs |-> << a.e >>]
                       [] a.a = "class"  -> [pairs |-> << [n |-> "class", v |-> a.e] >>, evs |-> << a.e >>]
-                      [] a.a = "spread" -> [pairs |-> << [n |-> "data-" \o a.m, v |-> a.m] >>, evs |-> << a.m >>]
+                      [] a.a = "class2" -> [pairs |-> << [n |-> "class", v |-> "K12"] >>, evs |-> << "K1", "K2" >>]
+                      [] a.a = "spread" -> [pairs |-> SpreadPairs(a.m), evs |-> << a.m >>]
                       [] a.a = "cond"   -> LET sub == DenAttrs(IF env.c[a.c] THEN a.then ELSE a.else, env)
                                            IN [pairs |-> sub.pairs, evs |-> << a.c >> \o sub.evs]
          IN [pairs |-> one.pairs \o rest.pairs, evs |-> one.evs \o rest.evs]
